@@ -92,6 +92,14 @@ func c02Doc(c *explore.Ctx, s *explore.SubStats, d kitDoc) {
 	if r.Panicked {
 		bad("panic-revalidate site="+r.Site+" msg="+normMsg(r.PanicVal), "Validate panicked when the same tree was validated again: "+r.PanicVal+"\n"+trimStack(r.Stack))
 	}
+	// the same tree against another loaded schema (a cached document after a schema reload) and back again
+	for _, other := range []*ast.Schema{kitSchema(1 - d.Schema), schema} {
+		r = guarded(c02DocBudget, 5000, func() { _ = validator.Validate(other, doc) })
+		if r.Panicked {
+			bad("panic-other-schema site="+r.Site+" msg="+normMsg(r.PanicVal), "Validate panicked when the tree, validated before against one kit schema, was validated against the other: "+r.PanicVal+"\n"+trimStack(r.Stack))
+			break
+		}
+	}
 	s.Sample(func() any { return d })
 }
 
@@ -211,7 +219,7 @@ func c02Family(c *explore.Ctx, s *explore.SubStats, f *gen.Family, n int) (ok bo
 
 func runC02(c *explore.Ctx) {
 	s := c.Sub("profiles", fmt.Sprintf("every document of the %d validation-kit profiles (%d documents: field selections, overlapping fields, arguments, literal × expected-type matrix, variables, fragments incl. cycles / unknown / unused, directives, operations, introspection, missing roots) against the kit schemas", len(gen.ValidProfiles), profileDocCount()),
-		"Validate returns normally (no panic, call depth < 5000, steps < 1.5·10⁶), also when the same tree is validated again", "documents with at least one error")
+		"Validate returns normally (no panic, call depth < 5000, steps < 1.5·10⁶), also when the same tree is validated again, then against the other kit schema, then against the first again", "documents with at least one error")
 	if s != nil {
 		t0 := time.Now()
 		forEachProfileDoc(c, s, "", func(d kitDoc) { s.Transitions++; c02Doc(c, s, d) })
